@@ -116,6 +116,10 @@ func class(name string) string {
 // (starveLo == 0), or the searches around the base schedules that starve goroutine number
 // starveLo..starveHi.
 func runScn(r *Report, sc *Scn, splitIdx, splitK, starveLo, starveHi int) {
+	if starveLo == -1 {
+		runScnOne(r, sc, splitIdx, splitK, -1)
+		return
+	}
 	if starveLo <= 0 {
 		runScnOne(r, sc, splitIdx, splitK, 0)
 		return
@@ -137,7 +141,11 @@ func runScnOne(r *Report, sc *Scn, splitIdx, splitK, starve int) {
 	opts := sc.Opts
 	opts.Deadline = r.Deadline
 	opts.SplitIdx, opts.SplitK = splitIdx, splitK
-	opts.Starve = starve
+	if starve == -1 {
+		opts.RunNext = true
+	} else {
+		opts.Starve = starve
+	}
 	if v := os.Getenv("VERIF_MAXSTEPS"); v != "" {
 		fmt.Sscan(v, &opts.MaxSteps)
 	}
@@ -208,7 +216,7 @@ func runScnOne(r *Report, sc *Scn, splitIdx, splitK, starve int) {
 		}
 		seen[f.Sig] = true
 		path := rep.WriteReplay(r.Replays, prop, map[string]any{"property": prop, "tier": tier, "scenario": sc.Name, "kind": "schedule",
-			"signature": f.Sig, "message": f.Msg, "bound": opts.Bound, "unbounded": opts.Unbounded, "starve": opts.Starve, "choices": v.Choices,
+			"signature": f.Sig, "message": f.Msg, "bound": opts.Bound, "unbounded": opts.Unbounded, "starve": opts.Starve, "run_next": opts.RunNext, "choices": v.Choices,
 			"log": trunc(v.Outcome.Log, 200), "blocked": v.Outcome.Blocked, "spinners": v.Outcome.Spinners, "live": v.Outcome.Live, "panic": firstLines(v.Outcome.Panic, 30)})
 		r.Violations = append(r.Violations, ViolationRec{Sig: f.Sig, Msg: f.Msg, Scenario: sc.Name, Replay: path})
 	}
@@ -223,6 +231,7 @@ type Job struct {
 	SplitK   int    `json:"split_k"`
 	Starve   int    `json:"starve,omitempty"` // > 0: this job explores the starvation schedules Starve..StarveHi
 	StarveHi int    `json:"starve_hi,omitempty"`
+	RunNext  bool   `json:"run_next,omitempty"` // this job explores around the "readied goroutine runs next" base schedule
 	Weight   int    `json:"weight"`
 	Phase    int    `json:"phase"` // deviation bound of the scenario: lower phases are served first
 }
@@ -260,6 +269,12 @@ func Jobs(prop, tier string) []Job {
 			}
 			out = append(out, Job{Index: i, Name: sc.Name, SplitIdx: j, SplitK: k, Weight: sc.Weight + 1000*(k-1), Phase: ph})
 		}
+		// the "readied goroutine runs next" base schedule, at the scenario's bound
+		if runNextFor(prop, tier, sc) {
+			for j := 0; j < k; j++ {
+				out = append(out, Job{Index: i, Name: sc.Name, SplitIdx: j, SplitK: k, RunNext: true, Weight: sc.Weight + 1000*(k-1), Phase: sc.Opts.Bound})
+			}
+		}
 		// starvation schedules: a few victims per job
 		for v := 1; v <= sc.Starve; v += 8 {
 			hi := v + 7
@@ -296,7 +311,11 @@ func Serve(prop, tier, replayDir string, deadline time.Time) {
 		r := rep.New(prop, tier, replayDir, deadline)
 		t0 := time.Now()
 		if j.Index < len(scns) {
-			runScn(r, scns[j.Index], j.SplitIdx, j.SplitK, j.Starve, j.StarveHi)
+			if j.RunNext {
+				runScn(r, scns[j.Index], j.SplitIdx, j.SplitK, -1, 0)
+			} else {
+				runScn(r, scns[j.Index], j.SplitIdx, j.SplitK, j.Starve, j.StarveHi)
+			}
 		} else {
 			r.RunPlain(plains[j.Index-len(scns)])
 		}
@@ -326,6 +345,9 @@ func RunShard(prop, tier string, shard, nshards int, budget time.Duration, repla
 			continue
 		}
 		runScn(r, sc, 0, 1, 0, 0)
+		if runNextFor(prop, tier, sc) {
+			runScn(r, sc, 0, 1, -1, 0)
+		}
 		sc.Starve = starveFor(prop, tier, sc)
 		if sc.Starve > 0 {
 			runScn(r, sc, 0, 1, 1, sc.Starve)
@@ -367,6 +389,7 @@ func ReplayFile(path string) int {
 		Bound     int    `json:"bound"`
 		Unbounded bool   `json:"unbounded"`
 		Starve    int    `json:"starve"`
+		RunNext   bool   `json:"run_next"`
 		Choices   []int  `json:"choices"`
 	}
 	if err := json.Unmarshal(b, &rec); err != nil {
@@ -404,6 +427,7 @@ func ReplayFile(path string) int {
 		opts := sc.Opts
 		opts.Bound, opts.Unbounded = rec.Bound, rec.Unbounded
 		opts.Starve = rec.Starve
+		opts.RunNext = rec.RunNext
 		opts.Trace = os.Getenv("VERIF_TRACE") != ""
 		if v := os.Getenv("VERIF_MAXSTEPS"); v != "" {
 			fmt.Sscan(v, &opts.MaxSteps)
